@@ -186,9 +186,13 @@ def suite_solver(ctx):
             mp = _bmap([np.array(p) for p in P], np.array(s_r), np.array(t_r))
             err = float(np.abs(mp - out).max()) / scale
             if err > 1e-6:
+                # the known defect (F10) is precisely: t correct, s = (x - x1 + x_31 t) / x_21 instead of (x - x1 - x_31 t) / x_21
+                x21 = P[1][0] - P[0][0]
+                s_wrong = (out[0] - P[0][0] + x31 * t_r) / x21
+                is_f10 = abs(t_r - t0) < 1e-6 and abs(s_r - s_wrong) < 1e-6 and abs(x31) > 1e-9 * scale
                 ctx.fail("bilinear._base._get_fractional_distances_parallellogram",
                          f"true parallelogram with sheared uprights (x_31 = {x31:.4g}): returned s={s_r:.6f} but the target is at s={s0:.6f} (t={t_r:.6f} vs {t0:.6f})",
-                         inp, {"t": t_r, "s": s_r}, tags={"cause": "shear-sign"}, size=1)
+                         inp, {"t": t_r, "s": s_r}, tags={"cause": "shear-sign" if is_f10 else "parallelogram-other"}, size=1)
         elif abs(x31) < 1e-9 * scale:
             ctx.fail("bilinear._base._get_fractional_distances_parallellogram", "parallelogram with upright sides: no value", inp, None, tags={"cause": "par-no-value"}, size=2)
 
@@ -356,6 +360,12 @@ def suite_resamplers(ctx):
             _cap["cp"], _cap["out"] = corner_points, (out_x, out_y)
             return _orig(corner_points, out_x, out_y)
         B._get_fractional_distances = spy
+        orig_corners = B._get_four_closest_corners
+
+        def spy_corners(in_x, in_y, out_x, out_y, neighbours, index_array, _cap=cap, _orig=orig_corners):
+            _cap["cand"] = (np.array(in_x, float), np.array(in_y, float), np.array(out_x, float), np.array(out_y, float))
+            return _orig(in_x, in_y, out_x, out_y, neighbours, index_array)
+        B._get_four_closest_corners = spy_corners
         try:
             with warnings.catch_warnings(), np.errstate(all="ignore"):
                 warnings.simplefilter("ignore")
@@ -363,6 +373,7 @@ def suite_resamplers(ctx):
                 rs.get_bil_info()
         finally:
             B._get_fractional_distances = orig
+            B._get_four_closest_corners = orig_corners
         t_, s_ = np.asarray(rs.bilinear_t, float), np.asarray(rs.bilinear_s, float)
         has = ~np.isnan(t_) & ~np.isnan(s_)
         voi = np.asarray(rs._valid_output_indices)
@@ -371,6 +382,16 @@ def suite_resamplers(ctx):
         cp = [np.asarray(c, float) for c in cap["cp"]]
         ox, oy = (np.asarray(v, float) for v in cap["out"])
         missing4 = np.isnan(cp[3][:, 0])
+        # independent of the library's selection: is there really no candidate strictly inside the lower-right quadrant?
+        cin_x, cin_y, cout_x, cout_y = cap["cand"]
+        with np.errstate(invalid="ignore"):
+            lr_exists = ((cin_x > cout_x[:, None]) & (cin_y < cout_y[:, None])).any(axis=1)
+        lost4 = missing4 & lr_exists
+        if lost4.any():
+            i = int(np.flatnonzero(lost4)[0])
+            ctx.fail("bilinear._base._get_four_closest_corners", f"location {i}: a neighbour lies in the lower-right quadrant but no lower-right corner was selected "
+                     f"({int(lost4.sum())} locations)", {**inp0, "location": i}, None, tags={"cause": "corner-lost"}, size=n_out)
+        missing4 = missing4 & ~lr_exists
         quad = ((cp[0][:, 0] < ox) & (cp[0][:, 1] > oy) & (cp[1][:, 0] > ox) & (cp[1][:, 1] > oy)
                 & (cp[2][:, 0] < ox) & (cp[2][:, 1] < oy) & (cp[3][:, 0] > ox) & (cp[3][:, 1] < oy))
         ctx.count("res.locations", int(n_out))
